@@ -243,7 +243,10 @@ func (p *Parser) led(tokenType tokType, node ASTNode) (ASTNode, error) {
 		right, err := p.parseExpression(bindingPowers[tAnd])
 		return ASTNode{nodeType: ASTAndExpression, children: []ASTNode{node, right}}, err
 	case tLparen:
-		name := node.value
+		name, ok := node.value.(string)
+		if node.nodeType != ASTField || !ok {
+			return ASTNode{}, p.syntaxError("Expected a function name before tLparen")
+		}
 		var args []ASTNode
 		for p.current() != tRparen {
 			expression, err := p.parseExpression(0)
